@@ -109,7 +109,7 @@ struct C03 : public Driver {
             else if (r < 17) { o["op"] = "param-expr"; std::string e = pickExpr(gf, d.names, dc.deep || dc.manyNames); SrcFault f = SrcFault::fromJson(srcFaultAt(gf, e, destructive)); o["expr"] = applySrcFault(e, f); o["faulted"] = f.destructive();
                 // a parameter value that makes a lazily evaluated global variable abort the transformation part-way
                 if (gated && gf.chance(2, 3)) { unsigned q = (unsigned)gf.below(3); o["expr"] = q == 0 ? std::string("'abort'") : q == 1 ? std::string("'badkey'") : "'" + d.ids[gf.below(std::min<size_t>(d.ids.size(), 14))] + "'"; o["faulted"] = true; } }
-            else if (r < 19) { o["op"] = gf.chance(1, 2) ? "xpath-eval" : "xpath-capi"; std::string e = pickExpr(gf, d.names, dc.deep || dc.manyNames); SrcFault f = SrcFault::fromJson(srcFaultAt(gf, e, destructive)); o["expr"] = applySrcFault(e, f); o["faulted"] = f.destructive(); o["docFault"] = srcFaultAt(gf, d.xml, destructive && gf.chance(1, 3)); }
+            else if (r < 19) { o["op"] = gf.chance(1, 2) ? "xpath-eval" : "xpath-capi"; std::string e = pickExpr(gf, d.names, dc.deep || dc.manyNames); SrcFault f = SrcFault::fromJson(srcFaultAt(gf, e, destructive)); o["expr"] = applySrcFault(e, f); o["faulted"] = f.destructive(); o["docFault"] = srcFaultAt(gf, d.xml, destructive && gf.chance(1, 3)); { Rng gx = gf.fork("xlia"); o["xercesLiaison"] = gx.chance(1, 3); o["destroyDoc"] = gx.chance(1, 2); } }
             else { o["op"] = "capi-transform"; o["docFault"] = srcFaultAt(gf, d.xml, destructive && gf.chance(1, 2)); o["xslFault"] = srcFaultAt(gf, s.xsl, destructive && gf.chance(1, 2)); o["toHandler"] = gf.chance(1, 2);
                 if (gated && gf.chance(1, 2)) { o["abortParam"] = gf.chance(1, 2) ? "'abort'" : "'badkey'"; o["faulted"] = true; } }      // the transformation itself fails part-way, after some output
             ops.push(o);
@@ -198,7 +198,9 @@ struct C03 : public Driver {
                 if (count && o.boolean("faulted")) res.count("fault:expr-corrupt");
             } else if (k == "xpath-eval") {
                 SrcFault f = SrcFault::fromJson(o.at("docFault")); std::string seen = applySrcFault(plan.str("doc"), f);
-                XalanSourceTreeParserLiaison lia(mm); XalanSourceTreeDOMSupport sup(lia); QuietErrorHandler eh; lia.setErrorHandler(&eh);
+                QuietErrorHandler eh;
+                auto body = [&](auto& lia, auto& sup) {
+                lia.setErrorHandler(&eh);
                 SimInputSource src(seen, f, std::string(SIM_BASE) + "doc.xml", &env.fs.stats);
                 XalanDocument* d = lia.parseXMLStream(src, xs(std::string(SIM_BASE) + "doc.xml", mm));
                 if (!d || eh.failed) { r.status = -1; r.err = eh.msg.empty() ? "parse failed" : eh.msg; }
@@ -219,6 +221,11 @@ struct C03 : public Driver {
                     NodeRefList nl(mm); ev.selectNodeList(nl, sup, ctx, xs("//*", mm).c_str(), d->getDocumentElement()); r.out += "|" + std::to_string(nl.getLength());
                     ev.destroyXPath(kept);
                 }
+                if (d && o.boolean("destroyDoc")) lia.destroyDocument(d);      /* the caller gives the document back before the liaison goes away */
+                };
+                // the evaluator over the native source tree, or over a Xerces DOM the Xerces liaison parsed and wraps itself
+                if (o.boolean("xercesLiaison")) { XercesParserLiaison lia(mm); XercesDOMSupport sup(lia); body(lia, sup); if (count) res.count("probe:xpath-over-xerces-liaison"); }
+                else { XalanSourceTreeParserLiaison lia(mm); XalanSourceTreeDOMSupport sup(lia); body(lia, sup); }
                 if (count && (o.boolean("faulted") || !f.kind.empty())) res.count("fault:expr-corrupt");
             } else if (k == "xpath-capi") {
                 XalanXPathEvaluatorHandle h = nullptr; int st = XalanCreateXPathEvaluator(&h);
@@ -271,6 +278,7 @@ struct C03 : public Driver {
             for (auto& s : leakSites) { if (s != "no-xalan-frame" && s.find("@xerces") == std::string::npos) xalan = true; sites += " site[" + s + "]"; }
             if (xalan || leakSites.empty()) res.violate("leak", "blocks-after-destruction", std::to_string(leaked) + " blocks still outstanding after the transformer's destructor in a run without refused allocations;" + sites);
             else res.count("probe:leak-inside-xerces-only");
+            if (getenv("C03_SITES")) fprintf(stderr, "SITES leaked=%llu%s\n", (unsigned long long)leaked, sites.c_str());
         }
     }
 
@@ -350,7 +358,12 @@ struct C03 : public Driver {
         int firstXalan = -1;
         for (size_t i = 0; i < bt.size(); ++i) { Dl_info di; if (dladdr(bt[i], &di) && di.dli_fname && strstr(di.dli_fname, "libxalan")) { firstXalan = (int)i; break; } }
         std::string f = xalanFrames(bt.data(), (int)bt.size(), 4);
-        if (firstXalan < 0 || firstXalan > 2) f += "@xerces";
+        // A DOM document is different: after adoptDocument() the parser no longer owns it, so a document (or one of its heap blocks)
+        // still outstanding was lost by whoever adopted it - the library's Xerces liaison; the harness releases its own.
+        bool domDocument = false;
+        for (size_t i = 0; i < bt.size(); ++i) { Dl_info di; if (dladdr(bt[i], &di) && di.dli_sname && (strstr(di.dli_sname, "DOMDocumentImpl") || strstr(di.dli_sname, "DOMImplementationImpl14createDocument"))) domDocument = true; }
+        if (domDocument) f += "@adopted-dom-document";
+        else if (firstXalan < 0 || firstXalan > 2) f += "@xerces";
         return f;
     }
 };
